@@ -74,6 +74,67 @@ theorem fl_text_word_found (enc : Nat → List Nat) (c : TokCfg) (fieldMax : Nat
     cases hr'
     exact (hiff.mp htid).2.2
 
+/-- the common step: a dictionary entry byte-equal to the single text term is found, and nothing else is -/
+theorem fl_found_of_mem (pf : Bytes → Option Int) (maxKey : Int) (tok : Bytes) (base : Nat) (dict : List Bytes)
+    (hmem : tok ∈ dict) :
+    ∃ r i, search pf maxKey (.literal [.text tok]) ⟨base, dict, false⟩ = some r ∧
+      i < dict.length ∧ dict[i]? = some tok ∧ base + i ∈ r ∧ ∀ tid, tid ∈ r → dict.getD (tid - base) [] = tok := by
+  obtain ⟨i, hi, hget⟩ := List.mem_iff_getElem.mp hmem
+  obtain ⟨r, hr, _⟩ := fl_search_single pf maxKey tok base dict 0
+  refine ⟨r, i, hr, hi, by simp [hi, hget], ?_, ?_⟩
+  · obtain ⟨r', hr', hiff⟩ := fl_search_single pf maxKey tok base dict (base + i)
+    rw [hr] at hr'
+    cases hr'
+    apply hiff.mpr
+    refine ⟨Nat.le_add_right _ _, by omega, ?_⟩
+    simp [hi, hget]
+  · intro tid htid
+    obtain ⟨r', hr', hiff⟩ := fl_search_single pf maxKey tok base dict tid
+    rw [hr] at hr'
+    cases hr'
+    exact (hiff.mp htid).2.2
+
+/-- **keyword fields**: the searcher built from the term `parseSeqQLKeyword` makes of the whole value (any bytes within
+the size limit, no wildcard rune) finds the TID of the one token the indexer stored for the value -/
+theorem fl_keyword_found (enc : Nat → List Nat) (mts : Nat) (cs partialIdx : Bool) (mfl fieldMax : Nat) (value : List TRn)
+    (hlim : blen value ≤ effMax fieldMax mts) (hne : value ≠ [])
+    (hwf : ∀ r, r ∈ value → SV.Tok.WF enc r) (hnw : ∀ r, r ∈ value → r.r.cp ≠ wildcardCp)
+    (pf : Bytes → Option Int) (maxKey : Int) (base : Nat) (dict : List Bytes)
+    (hdict : ∀ t, t ∈ keywordTokens ⟨mts, cs, partialIdx, mfl, SV.Extracted.C11.csNormalizesInvalid⟩ fieldMax value →
+      t ∈ dict) :
+    ∃ r i, search pf maxKey (.literal ((seqqlKeyword cs (value.map (·.r))).map (toPat enc))) ⟨base, dict, false⟩ = some r ∧
+      i < dict.length ∧ dict[i]? = some (lowerIfCI cs SV.Extracted.C11.csNormalizesInvalid value) ∧ base + i ∈ r ∧
+      ∀ tid, tid ∈ r → dict.getD (tid - base) [] = lowerIfCI cs SV.Extracted.C11.csNormalizesInvalid value := by
+  obtain ⟨htoks, hq, _, hbytes⟩ := c11_keyword enc mts cs partialIdx mfl fieldMax value hlim hne hwf hnw
+  have hmem : lowerIfCI cs SV.Extracted.C11.csNormalizesInvalid value ∈ dict := hdict _ (by rw [htoks]; simp)
+  have hterms : (seqqlKeyword cs (value.map (·.r))).map (toPat enc) =
+      [.text (lowerIfCI cs SV.Extracted.C11.csNormalizesInvalid value)] := by
+    rw [hq]; simp [toPat, hbytes]
+  rw [hterms]
+  exact fl_found_of_mem pf maxKey _ base dict hmem
+
+/-- **path fields**: every leading path cut right before a separator, queried as a keyword, finds the TID of the token
+the indexer stored for that leading path -/
+theorem fl_path_found (enc : Nat → List Nat) (mts : Nat) (cs partialIdx : Bool) (mfl fieldMax : Nat)
+    (value p rest : List TRn) (sep : TRn)
+    (hlim : blen value ≤ effMax fieldMax mts) (hsep : sep.r.cp = 47 ∧ sep.r.bytes = [47])
+    (hv : value = p ++ sep :: rest) (hp : p ≠ [])
+    (hwf : ∀ r, r ∈ p → SV.Tok.WF enc r) (hnw : ∀ r, r ∈ p → r.r.cp ≠ wildcardCp)
+    (pf : Bytes → Option Int) (maxKey : Int) (base : Nat) (dict : List Bytes)
+    (hdict : ∀ t, t ∈ pathTokens ⟨mts, cs, partialIdx, mfl, SV.Extracted.C11.csNormalizesInvalid⟩ fieldMax value →
+      t ∈ dict) :
+    ∃ r i, search pf maxKey (.literal ((seqqlKeyword cs (p.map (·.r))).map (toPat enc))) ⟨base, dict, false⟩ = some r ∧
+      i < dict.length ∧ dict[i]? = some (lowerIfCI cs SV.Extracted.C11.csNormalizesInvalid p) ∧ base + i ∈ r ∧
+      ∀ tid, tid ∈ r → dict.getD (tid - base) [] = lowerIfCI cs SV.Extracted.C11.csNormalizesInvalid p := by
+  obtain ⟨hq, hbytes⟩ := c11_path_query enc cs p hp hwf hnw
+  have hmem := hdict _ (c11_path ⟨mts, cs, partialIdx, mfl, SV.Extracted.C11.csNormalizesInvalid⟩ fieldMax value p rest sep
+    hlim hsep hv hp).1
+  have hterms : (seqqlKeyword cs (p.map (·.r))).map (toPat enc) =
+      [.text (lowerIfCI cs SV.Extracted.C11.csNormalizesInvalid p)] := by
+    rw [hq]; simp [toPat, hbytes]
+  rw [hterms]
+  exact fl_found_of_mem pf maxKey _ base dict hmem
+
 /-- non-vacuity of `fl_search_single`: token `ab` is entry 1 of a three-token dictionary based at TID 5 -/
 example : ∃ r, search (fun _ => none) 100 (.literal [.text [97, 98]]) ⟨5, [[97], [97, 98], [99]], false⟩ = some r ∧
     6 ∈ r ∧ 5 ∉ r := by
